@@ -26,29 +26,29 @@ var vgLateDigests = map[string]string{
 }
 
 // chunkTaintReader delivers at most chunk bytes per Read, tainted.
-type chunkTaintReader struct {
-	taintedReader
+type zvChunkTaintReader struct {
+	zvTaintedReader
 	chunk int
 }
 
-func (c *chunkTaintReader) Read(p []byte) (int, error) {
+func (c *zvChunkTaintReader) Read(p []byte) (int, error) {
 	if len(p) > c.chunk {
 		p = p[:c.chunk]
 	}
-	return c.taintedReader.Read(p)
+	return c.zvTaintedReader.Read(p)
 }
 
 // byteTaintReader is also an io.ByteReader.
-type byteTaintReader struct{ taintedReader }
+type zvByteTaintReader struct{ zvTaintedReader }
 
-func (b *byteTaintReader) ReadByte() (byte, error) {
+func (b *zvByteTaintReader) ReadByte() (byte, error) {
 	var one [1]byte
-	b.taintedReader.Read(one[:])
+	b.zvTaintedReader.Read(one[:])
 	return one[0], nil
 }
 
 //go:noinline
-func vgL2_SignHashed_k_tainted_late_rejection(priv, e []byte, rd *taintedReader) {
+func vgL2_SignHashed_k_tainted_late_rejection(priv, e []byte, rd *zvTaintedReader) {
 	r, s, err := SignHashed(rd, priv, e)
 	utils.VgUnpoison(r)
 	utils.VgUnpoison(s)
@@ -64,13 +64,13 @@ func vgL2_SignHashed_k_tainted_source_types(priv, e []byte, which int, stream []
 	var err error
 	switch which {
 	case 0:
-		r, s, err = SignHashed(&chunkTaintReader{taintedReader{data: stream, taint: true}, 1}, priv, e)
+		r, s, err = SignHashed(&zvChunkTaintReader{zvTaintedReader{data: stream, taint: true}, 1}, priv, e)
 	case 1:
-		r, s, err = SignHashed(&chunkTaintReader{taintedReader{data: stream, taint: true}, 7}, priv, e)
+		r, s, err = SignHashed(&zvChunkTaintReader{zvTaintedReader{data: stream, taint: true}, 7}, priv, e)
 	case 2:
-		r, s, err = SignHashed(bufio.NewReaderSize(&taintedReader{data: stream, taint: true}, 16), priv, e)
+		r, s, err = SignHashed(bufio.NewReaderSize(&zvTaintedReader{data: stream, taint: true}, 16), priv, e)
 	default:
-		r, s, err = SignHashed(&byteTaintReader{taintedReader{data: stream, taint: true}}, priv, e)
+		r, s, err = SignHashed(&zvByteTaintReader{zvTaintedReader{data: stream, taint: true}}, priv, e)
 	}
 	utils.VgUnpoison(r)
 	utils.VgUnpoison(s)
@@ -83,7 +83,7 @@ func vgL2_SignHashed_k_tainted_source_types(priv, e []byte, which int, stream []
 //go:noinline
 func vgL2_SignHashed_d_and_k_tainted(priv, e, stream []byte) {
 	utils.VgPoison(priv)
-	r, s, err := SignHashed(&taintedReader{data: stream, taint: true}, priv, e)
+	r, s, err := SignHashed(&zvTaintedReader{data: stream, taint: true}, priv, e)
 	utils.VgUnpoison(priv)
 	utils.VgUnpoison(r)
 	utils.VgUnpoison(s)
@@ -112,11 +112,11 @@ func vgL2_GenerateKey_sources_tainted(which int, stream []byte) {
 	var err error
 	switch which {
 	case 0:
-		priv, x, y, err = GenerateKey(&chunkTaintReader{taintedReader{data: stream, taint: true}, 1})
+		priv, x, y, err = GenerateKey(&zvChunkTaintReader{zvTaintedReader{data: stream, taint: true}, 1})
 	case 1:
-		priv, x, y, err = GenerateKey(bufio.NewReaderSize(&taintedReader{data: stream, taint: true}, 16))
+		priv, x, y, err = GenerateKey(bufio.NewReaderSize(&zvTaintedReader{data: stream, taint: true}, 16))
 	default:
-		priv, x, y, err = GenerateKey(&byteTaintReader{taintedReader{data: stream, taint: true}})
+		priv, x, y, err = GenerateKey(&zvByteTaintReader{zvTaintedReader{data: stream, taint: true}})
 	}
 	utils.VgUnpoison(priv)
 	utils.VgUnpoison(x)
@@ -136,7 +136,7 @@ func TestVgC08SM2More(t *testing.T) {
 	taken := 0
 	for _, rule := range []string{"r=0", "r+k=n", "s=0"} {
 		e, _ := hex.DecodeString(vgLateDigests[rule])
-		rd := &taintedReader{data: append(append([]byte{}, k...), append(vgKey(302), vgKey(303)...)...), taint: true}
+		rd := &zvTaintedReader{data: append(append([]byte{}, k...), append(vgKey(302), vgKey(303)...)...), taint: true}
 		vgL2_SignHashed_k_tainted_late_rejection(append([]byte{}, d...), e, rd)
 		if rd.off >= 64 {
 			taken++ // a second candidate was drawn: the first one was rejected late
